@@ -756,6 +756,25 @@ func (f *Facts) ltLen(v ssa.Value, x ssa.Value) bool {
 			}
 		}
 	}
+	// v is a counter 0,1,2,… that is only advanced while it differs from len(x) (for i := 0; ;
+	// i++ { if i == len(x) { break } … }): i ≤ len(x) is inductive, so i ≠ len(x) gives i < len(x)
+	if ph, isPhi := tv.V.(*ssa.Phi); isPhi && tv.Off == 0 {
+		for _, c := range f.Cmps {
+			if c.Op != token.NEQ {
+				continue
+			}
+			l, r := c.L, c.R
+			if l.isLen() {
+				l, r = r, l
+			}
+			if !r.isLen() || r.Off != 0 || r.LenVal != x || l.V != ssa.Value(ph) || l.Off != 0 {
+				continue
+			}
+			if counterStaysBelowLen(ph, x) {
+				return true
+			}
+		}
+	}
 	// len(x) == len(y) established: v < len(y) suffices
 	for _, c := range f.Cmps {
 		if c.Op != token.EQL || !c.L.isLen() || !c.R.isLen() || c.L.Off != 0 || c.R.Off != 0 {
@@ -791,6 +810,52 @@ func (f *Facts) ltLen(v ssa.Value, x ssa.Value) bool {
 		}
 	}
 	return false
+}
+
+// counterStaysBelowLen: ph ≤ len(x) at the loop header by induction — every edge of the phi is the
+// constant 0 or ph+1 computed where ph < len(x) or ph ≠ len(x) is known (with the hypothesis
+// ph ≤ len(x) the latter is ph < len(x)); x is one slice/string value defined before the loop, so
+// its length does not change between iterations.
+func counterStaysBelowLen(ph *ssa.Phi, x ssa.Value) bool {
+	if xi, ok := x.(ssa.Instruction); ok {
+		if xi.Block() == nil || xi.Block() == ph.Block() || !xi.Block().Dominates(ph.Block()) {
+			return false
+		}
+	}
+	for _, e := range ph.Edges {
+		if k, ok := constInt(e); ok {
+			if k != 0 {
+				return false
+			}
+			continue
+		}
+		bo, ok := e.(*ssa.BinOp)
+		if !ok || bo.Op != token.ADD || bo.X != ssa.Value(ph) {
+			return false
+		}
+		if k, ok := constInt(bo.Y); !ok || k != 1 {
+			return false
+		}
+		ef := FactsAt(bo)
+		found := false
+		for _, c := range ef.Cmps {
+			l, op, r := c.L, c.Op, c.R
+			if l.isLen() {
+				l, r = r, l
+				op = flipOp(op)
+			}
+			if !r.isLen() || r.Off != 0 || r.LenVal != x || l.V != ssa.Value(ph) || l.Off != 0 {
+				continue
+			}
+			if op == token.NEQ || op == token.LSS {
+				found = true
+			}
+		}
+		if !found {
+			return false
+		}
+	}
+	return true
 }
 
 // ltLenNoEq is ltLen without following length equalities (no recursion).
